@@ -138,14 +138,14 @@ PROPS['C07'] = dict(
 PROPS['C15'] = dict(
     category='other',
     technique='Kani contracts on the real map-level helpers: loop-free full-domain harnesses (sample defaults, beat-length scaling) and a bounded harness for break post-processing',
-    level_text='post_process_breaks proved panic-free and count-preserving for every number of objects and breaks (Verus; its combo rule itself is only a bounded Kani stand-in). SamplePoint::apply proved (Kani, every i32 / bank value: defaults taken only when unspecified, file samples normalised, unsafe suffix guard); get_precision_adjusted_beat_len: domain facts proved for every f64 pair, the clamp(100/sv, 10, M)/100 scaling checked on listed values (bounded); post_process_breaks bounded stand-in (3 objects x 2 breaks, every finite time)',
-    level_note='not decided: shift invariance (a 2-safety property over two runs of the whole decoder through dec2flt), stable sort of the object list, the velocity / duration formulas inside From<HitObjectsState> (need curve computation), node sample lookup times',
+    level_text='proved (Verus, every number of objects and breaks): From<HitObjectsState> sorts the objects by start time (f64::total_cmp order) BEFORE the break sweep -- post_process_breaks requires a chronologically sorted list and its only caller proves it from the (assumed) contract of slice::sort_by; post_process_breaks is panic-free and count-preserving (its combo rule itself is only a bounded Kani stand-in). SamplePoint::apply proved (Kani, every i32 / bank value: defaults taken only when unspecified, file samples normalised, unsafe suffix guard); get_precision_adjusted_beat_len: domain facts proved for every f64 pair, the clamp(100/sv, 10, M)/100 scaling checked on listed values (bounded); post_process_breaks bounded stand-in (3 objects x 2 breaks, every finite time)',
+    level_note='not decided: shift invariance (a 2-safety property over two runs of the whole decoder through dec2flt), that the sweep leaves the order intact (it only writes new_combo flags: iter_mut element frames are beyond the installed vstd), the velocity / duration formulas inside From<HitObjectsState> (need curve computation), node sample lookup times',
     verus=[dict(unit='c15', tier='quick')], kani=['c15.kc', 'c15_sample.kc'],
     kani_functions=['src/section/hit_objects/decode.rs :: fn get_precision_adjusted_beat_len', 'src/section/hit_objects/decode.rs :: impl HitObjectsState :: fn post_process_breaks',
                     'src/section/timing_points/control_points/sample.rs :: impl SamplePoint :: fn apply'],
     explanation='see level_text; per-obligation statements in coverage.samples[].states',
-    trusted_base=COMMON_TRUST, assumptions=['objects sorted by start time and breaks ordered by end time when post_process_breaks runs (the sort two lines earlier is std)'],
-    not_decided=['shift invariance', 'From<HitObjectsState> for HitObjects body (sort stability, velocity, duration, 5 ms lookup leniency)'],
+    trusted_base=COMMON_TRUST, assumptions=['breaks ordered by end time when post_process_breaks runs', 'slice::sort_by as documented by std: a permutation, ordered by the comparator (stability assumed, not used)'],
+    not_decided=['shift invariance', 'From<HitObjectsState> for HitObjects after the sweep (velocity, duration, 5 ms lookup leniency: cut from the unit)'],
 )
 
 PROPS['C11'] = dict(
